@@ -242,6 +242,8 @@ func runC11(c *Ctx) {
 		}
 		c11History(c, "history-rand", p, steps)
 	}
+	// ---- built-in expressions of legacy profiles
+	c11LegacyStreams(c, removeUn)
 	// ---- end-to-end layer
 	c11E2EStreams(c)
 }
